@@ -620,13 +620,12 @@ try:  # noqa: C901
                 # Resolve a negative index once, as list.insert() does.
                 index = max(len(self) + index, 0)
 
-            for (key, value) in kvlist:
-                identity = self._title(key)
-                self._impl._items.insert(
-                    index, (identity, self._key(key), value)
-                )
-                self._impl.incr_version()
-                index += 1
+            # Only the public interface of multidict is used: its private
+            # attributes differ between versions of that library.
+            items = list(self.items())
+            items[index:index] = kvlist
+            self.clear()
+            self.extend(items)
             return
 
         def insert_after(self, key, new_item, instance=0):
@@ -650,9 +649,11 @@ try:  # noqa: C901
             *default* is returned (dict-like behavior).
             """
             if len(args) == 0 and len(kwargs) == 0:
-                i, k, v = self._impl._items.pop()
-                self._impl.incr_version()
-                return i, v
+                items = list(self.items())
+                key, value = items.pop()
+                self.clear()
+                self.extend(items)
+                return key, value
             else:
                 return super().pop(*args, **kwargs)
 
